@@ -1,30 +1,24 @@
 use anda_kip::*;
 fn main() {
-    let cases = [
-        r#"ENSURE PROPOSITION (?nowhere, "p", :b)"#,
-        r#"UPDATE ?t SET FIELDS { confidence: 1 } WHERE { ?t {type:"X"} UNION { ?t ASSERTION {mode: "stated"} } }"#,
-        r#"UPDATE ?t SET FIELDS { confidence: 1 } WHERE { UNION { ?t ASSERTION {mode: "stated"} } }"#,
-        r#"UPDATE ?t SET FIELDS { confidence: 1 } WHERE { OPTIONAL { ?t ASSERTION {mode: "stated"} } }"#,
-        r#"UPDATE :id SET FIELDS { n: ADD(?other.n, 1) }"#,
-        r#"CREATE CONCEPT ?c { TYPE "T" SET FIELDS { a: ?zz.name } }"#,
-        r#"UPDATE :id SET STRUCTURAL { ("_system", :x) }"#,
-        r#"FIND(?x) WHERE { (?x, "p" {0,5}, ?y) }"#,
-        r#"FIND(?x) WHERE { (?x, "p"{0,5}, ?y) }"#,
-        r#"FIND(?x) WHERE { FILTER(?x.a == - 1) }"#,
-        r#"FIND(?x) WHERE { FILTER(?x.a == -1) }"#,
-        r#"FIND(?x . name) WHERE { ?x {a: 1} }"#,
-        r#"UPSERT CONCEPT ?c { MATCH { id: "x", name: "n" } SET FIELDS { key: "k2" } }"#,
-        r#"ASSERT (?alice, "p", :b) { by: :me, mode: "stated" }"#,
-        r#"MUTATE { ASSERT ?a (:a, "p", :b) { by: :me, mode: "stated" } SUPERSEDING ?a }"#,
-        r#"SUPERSEDE ASSERTION ?x BY ?y"#,
-        r#"ARCHIVE ?x"#,
-        r#"ARCHIVE ?x WHERE { FILTER(?x.a == 1) }"#,
-        r#"ARCHIVE ?x WHERE { NOT { ?x {a: 1} } }"#,
-    ];
-    for c in cases {
-        match parse_kip(c) {
-            Ok(cmd) => println!("OK   {c}\n     {}", serde_json::to_string(&cmd).unwrap()),
-            Err(e) => println!("ERR  {c}\n     {:?} {}", e.code, e.message.lines().next().unwrap_or("")),
+    // smallest nesting at which an accepted command no longer decodes from its own JSON
+    for (name, mk) in [
+        ("tuple", (|n: usize| format!("FIND(?t) WHERE {{ {}?o{} }}", "(?s, \"p\", ".repeat(n), ")".repeat(n))) as fn(usize) -> String),
+        ("array", |n: usize| format!("UPDATE :id SET ATTRIBUTES {{a: {}1{} }}", "[".repeat(n), "]".repeat(n))),
+        ("and", |n: usize| format!("FIND(?t) WHERE {{ FILTER({}) }}", vec!["?t.a == 1"; n + 1].join(" && "))),
+        ("not", |n: usize| format!("FIND(?t) WHERE {{ {} ?c {{a: 1}} {} }}", "NOT { ".repeat(n), "} ".repeat(n))),
+    ] {
+        for n in 1..64 {
+            let text = mk(n);
+            match parse_kip(&text) {
+                Ok(cmd) => {
+                    let js = serde_json::to_string(&cmd).unwrap();
+                    if let Err(e) = serde_json::from_str::<Command>(&js) {
+                        println!("{name}: n={n} accepted, decode fails: {e}; text={}", &text[..text.len().min(100)]);
+                        break;
+                    }
+                }
+                Err(e) => { println!("{name}: n={n} refused {:?}", e.code); break; }
+            }
         }
     }
 }
